@@ -74,6 +74,14 @@ type zzCoordRpc struct {
 	become []*proto.BecomeLeaderRequest
 	leader string
 	statuses map[string]*proto.GetStatusResponse // nil: GetStatus answers with an empty status
+	failN   map[string]int                       // the next failN[node] NewTerm calls on the node fail, then it answers
+	added   []zzAdded
+	addedCh chan struct{}
+}
+
+type zzAdded struct {
+	leader string
+	req    *proto.AddFollowerRequest
 }
 
 func (r *zzCoordRpc) PushShardAssignments(context.Context, model.Server) (proto.OxiaCoordination_PushShardAssignmentsClient, error) {
@@ -86,6 +94,10 @@ func (r *zzCoordRpc) NewTerm(_ context.Context, node model.Server, req *proto.Ne
 	if r.fails[node.Internal] {
 		return nil, errors.New("zz: node unreachable")
 	}
+	if r.failN[node.Internal] > 0 {
+		r.failN[node.Internal]--
+		return nil, errors.New("zz: node unreachable for now")
+	}
 	return &proto.NewTermResponse{HeadEntryId: r.heads[node.Internal]}, nil
 }
 func (r *zzCoordRpc) BecomeLeader(_ context.Context, node model.Server, req *proto.BecomeLeaderRequest) (*proto.BecomeLeaderResponse, error) {
@@ -96,7 +108,14 @@ func (r *zzCoordRpc) BecomeLeader(_ context.Context, node model.Server, req *pro
 	r.leader = node.Internal
 	return &proto.BecomeLeaderResponse{}, nil
 }
-func (r *zzCoordRpc) AddFollower(context.Context, model.Server, *proto.AddFollowerRequest) (*proto.AddFollowerResponse, error) {
+func (r *zzCoordRpc) AddFollower(_ context.Context, node model.Server, req *proto.AddFollowerRequest) (*proto.AddFollowerResponse, error) {
+	r.mu.Lock()
+	r.added = append(r.added, zzAdded{node.Internal, req})
+	ch := r.addedCh
+	r.mu.Unlock()
+	if ch != nil {
+		ch <- struct{}{}
+	}
 	return &proto.AddFollowerResponse{}, nil
 }
 func (r *zzCoordRpc) GetStatus(_ context.Context, node model.Server, _ *proto.GetStatusRequest) (*proto.GetStatusResponse, error) {
